@@ -14,7 +14,8 @@ TIE_EXTRA = {
                      "tie_cprint_derives", "tie_cprint_derives_prec", "tie_cprint_derives_exact",
                      "tie_cprint_parses", "tie_cprint_stmt_derives",
                      "sparse_flats", "sparse_cprint_stmts", "gen_struct_equiv", "gen_struct_none",
-                     "gen_function_equiv", "gen_module_equiv"],
+                     "gen_function_equiv", "gen_module_equiv",
+                     "sem_block_comment", "sem_block_singleton", "sem_block_splice", "sem_else_block"],
         "source": "codegen/_ir_to_c.py (all of it: expressions, statements incl. block / branch / loop layout, function definitions, module), "
                   "codegen/_type_to_c.py",
         "model": "coq/model/CPrint.v (cprint, cprint_stmt; spec/CGrammar.v type_tokens) and coq/model/CStruct.v (skel, cprint_stmts, cprint_function, cprint_module; structure parser sparse) through the C lexer coq/model/CLexer.v",
